@@ -39,6 +39,7 @@ def plot_case(draw):
     aux_n = draw(st.sampled_from(["same", "same", "swapped", "same-count", "same-count", "other"]))
     return {"g": g, "k": k, "kind": kind, "vdims": draw(gen.vdims_strategy(k)), "perm": list(draw(st.permutations(range(3)))),
             "use_vdims_arg": draw(st.booleans()), "seed": draw(st.integers(0, 2**31)), "mask": draw(gen.mask_spec(2)),
+            "override": ((draw(st.integers(0, 2**32)) + 0xC20) * 0x9E3779B97F4A7C15) % 2**64 >> 20,
             "mult": draw(st.sampled_from([None, None, 1e-9, 1e-6, 1e-3, 1, 1e3])),
             # an auxiliary field that this kind of plot uses
             "aux": draw(st.sampled_from({"scalar": ["none", "filter", "filter"], "contour": ["none", "filter", "filter"],
@@ -217,6 +218,7 @@ def check_plot(case):
         aux_snap = snapshot(aux)
         tag(f"aux-{case['aux']}-{case['aux_n']}")
     fig, ax = plt.subplots()
+    comp_axis0 = dict(comp_axis)
     try:
         vd_arg = None
         if k > 1 and kind in ("vector", "mpl"):
@@ -249,6 +251,15 @@ def check_plot(case):
                 kw["lightness_field"] = aux
             f.mpl.lightness(ax=ax, **kw)
         elif kind == "vector":
+            ov = case.get("override")
+            if ov is not None and k == 3 and not case["use_vdims_arg"] and case["aux"] != "color" and ov % 2 == 0:
+                # explicit labels take precedence over the mapping: any ordered pair of components as arrows, the
+                # remaining component as colour
+                import itertools
+                pair = list(itertools.permutations(range(3), 2))[(ov // 2) % 6]
+                kw["vdims"] = [labels[pair[0]], labels[pair[1]]]
+                comp_axis = {0: pair[0], 1: pair[1]}
+                tag("vdims-override" + ("-other-plane" if set(pair) != {c for c in (comp_axis0.get(0), comp_axis0.get(1))} else ""))
             if case["use_vdims_arg"]:
                 kw["vdims"] = vd_arg
             if case["aux"] == "color":
